@@ -10,7 +10,10 @@ Inductive case :=
 | CRemote (utf8 : bool) (toascii : otab) (txns : list txn) (obs : list (list bool * list (str * bool)))
 | CLmtp (rcpts : list str) (replies : list bool) (transfer_ok : bool) (obs : list (str * bool))
 | CPipe (m : list (str * str)) (sts : list (str * bool)) (obs : list (str * bool))
-| CPipeE (rws : list rwtab) (rcpts fails : list str) (obs : list (str * bool)).
+| CPipeE (rws : list rwtab) (rcpts fails : list str) (obs : list (str * bool))
+(* one transaction of target.remote whose recipients spell one destination domain in several ways
+   (several connections, statuses in any order): recipients, replies to AddRcpt, DATA result, statuses *)
+| CRemoteSpell (rcpts : list str) (oks : list bool) (data_ok : bool) (obs : list (str * bool)).
 
 Definition st_eqb (a b : str * bool) : bool := str_eqb (fst a) (fst b) && Bool.eqb (snd a) (snd b).
 Definition res_eqb (a b : list bool * list (str * bool)) : bool :=
@@ -23,6 +26,10 @@ Definition agrees (c : case) : bool :=
   | CLmtp rcpts replies ok obs => list_eqb st_eqb (lmtp_statuses rcpts replies ok) obs
   | CPipe m sts obs => list_eqb st_eqb (translate m sts) obs
   | CPipeE rws rcpts fails obs => list_eqb st_eqb (pipe_e2e rws rcpts fails) obs
+  | CRemoteSpell rcpts oks data_ok obs =>
+      let want := map (fun r => (r, data_ok)) (accepted rcpts oks) in
+      Nat.eqb (length want) (length obs) &&
+      forallb (fun x => Nat.eqb (length (filter (st_eqb x) want)) (length (filter (st_eqb x) obs))) (want ++ obs)
   end.
 Definition mismatches (cs : list case) : list N := find_idx (fun c => negb (agrees c)) cs.
 
@@ -53,6 +60,8 @@ Definition monitor (c : case) : list N :=
       let want := go sts [] in
       let uniq := forallb (fun e => Nat.eqb (length (filter (fun e' => str_eqb (fst e') (fst e)) m)) 1) m in
       if same_multiset (map fst obs) want then [] else if uniq then [3] else [110]
+  | CRemoteSpell rcpts oks _ obs =>
+      if same_multiset (map fst obs) (accepted rcpts oks) && same_multiset (accepted rcpts oks) (map fst obs) then [] else [1]
   | CPipeE rws rcpts fails obs =>
       let maps := pipe_maps rws rcpts in
       let handed := pipe_handed rws rcpts in
@@ -81,6 +90,7 @@ Definition tag (c : case) : N :=
       + (if existsb (fun r => existsb (fun p => negb (snd p)) (snd r)) obs then 32 else 0)
   | CLmtp _ replies ok _ => 64 + (if ok then 0 else 128) + (if existsb negb replies then 256 else 0)
   | CPipe m _ _ => 512 + (match m with [] => 0 | _ => 1024 end)
+  | CRemoteSpell rcpts oks ok _ => 16384 + (if ok then 1 else 0) + (if existsb negb oks then 2 else 0)
   | CPipeE rws rcpts _ _ => 2048 + (if Nat.ltb 1 (length rws) then 4096 else 0)
                             + (if existsb (fun m => match m with [] => false | _ => true end) (pipe_maps rws rcpts) then 8192 else 0)
   end.
